@@ -145,7 +145,7 @@ def gen_cochain(rng):
     an outsider just below the quota waits for any of them to be excluded instead"""
     m = rng.choice([2, 3, 3, 4]); s = m
     u = rng.randint(3, 15); T = (s + 1) * u + rng.randint(0, s)
-    out_votes = max(1, T // (s + 1) - rng.randint(0, 2))
+    out_votes = max(1, T // (s + 1) - rng.choice([0, 0, 0, 1, 2]))      # mostly: the coalition exceeds its quotas by a fraction of a vote
     co = T - out_votes
     members = list(range(1, m + 1))
     small = [rng.choice([0, 0, 1, 2, 3]) for _ in members[1:]]
